@@ -14,7 +14,7 @@ EXEC_ASSUME = [
 
 prop("C01",
      level_text="generated-input search (rapid): schemas x valid documents x variables x resolver outcomes; Do, Execute and PlanQuery+ExecutePlan compared with an independent interpreter of the execution algorithm",
-     note="trusts the reference interpreter's reading of the spec (DESIGN §3.4) and the generators' reach; says nothing beyond the explored cases",
+     note="trusts the reference interpreter's reading of the spec (DESIGN §3.4) and the generators' reach; says nothing beyond the explored cases; ADDED IN THE SENSITIVITY PHASE (DESIGN 13): also: the prepared plan is executed again with 1-2 other valuations of the variables and then the first; documents may select a field next to a spread of a fragment that contains it, leading back into the fragment; list elements may be deferred values; resolvers may fail with foreign located errors or their own context errors",
      technique="property-based testing (rapid) against a reference-model oracle",
      rule="rapid draws schema model x valid-by-construction document x coercible variables x resolver-outcome table; each case runs Do, Execute and PlanQuery+ExecutePlan (twice) and compares data (JSON) and the (path,class) error multiset with an independent interpreter of the execution algorithm. Non-trivial = document has a duplicated response key, a fragment spread twice, a variable-driven directive, several operations, an abstract position resolving to >=2 runtime types, or a null propagating >=2 levels; distinct by hash of the whole case.",
      assumptions=EXEC_ASSUME,
@@ -22,7 +22,7 @@ prop("C01",
 
 prop("C04",
      level_text="generated-input search (rapid) with an adversarial outcome for about half of all reachable resolver / type-resolver / isTypeOf invocations; oracle = intrinsic response-conformance predicate + equality with the reference interpreter + no panic + JSON-serialisable",
-     note="conformance predicate and reference interpreter are the harness's own (harness/ref); deferred failures in non-null positions are not generated (ambiguous ordering, DESIGN §3.4) except the canonical reproducer of KF-C04-thunk-nonnull",
+     note="conformance predicate and reference interpreter are the harness's own (harness/ref); deferred failures in non-null positions are not generated (ambiguous ordering, DESIGN §3.4) except the canonical reproducer of KF-C04-thunk-nonnull; ADDED IN THE SENSITIVITY PHASE (DESIGN 13): outcomes added in the sensitivity phase: runtime-type decisions at list-typed fields (every element), serializers that raise (leafpanic) or yield nothing although the value is not nullish (NaN text, NaN, typed nil pointer, integer text outside 32 bits), at fields and at list items; deferred list elements; foreign located errors; context errors of the resolver's own",
      technique="property-based testing (rapid): fault injection into resolvers, validity predicate + reference-model oracle",
      rule="C01 generator with outcome table drawn adversarially (nil, typed nil, error, value+error, panic with error/string/int, thunks that succeed/fail/yield nil, non-iterable for list, unserialisable / NaN / Inf / out-of-range / unknown-enum leaves, type resolver returning nil or a non-member, isTypeOf lying) at ~50% of reachable positions. Non-trivial = at least one override below the root level and at least one field error or thunk actually reached; distinct by hash of the case.",
      assumptions=EXEC_ASSUME,
@@ -55,7 +55,7 @@ NOT_APPLICABLE = [
 
 prop("C20",
      level_text="generated-input search (rapid): every callback invocation (resolvers, type resolvers, isTypeOf) is recorded and compared field by field with the call log the reference interpreter prescribes; one plan is re-executed with fresh variables, roots, contexts and resolver behaviours while resolvers scribble on their Args",
-     note="the expected call log comes from harness/ref; Info.FieldASTs is checked for 'contains every included occurrence and only occurrences of this key'",
+     note="the expected call log comes from harness/ref; Info.FieldASTs is checked for 'contains every included occurrence and only occurrences of this key'; ADDED IN THE SENSITIVITY PHASE (DESIGN 13): callbacks that are not handed the request's context record themselves in the schema's fallback session, which the check reads; plan reuse with argument-scribbling resolvers",
      technique="property-based testing (rapid) with an instrumented schema and a reference-model call log",
      rule="C01 generator plus reuse histories (0-3 further ExecutePlan calls on the plan built for the first execution). Per call: exactly-once per reference path, Source identity (Tok id / request root), Args, FieldName, ReturnType, runtime ParentType, Path, FieldASTs, Operation, Fragments, VariableValues, RootValue, Schema, context marker; resolveType count per abstract value. Non-trivial = list depth >= 2, an abstract position with >= 2 runtime types, or a reused plan.",
      assumptions=EXEC_ASSUME,
@@ -63,7 +63,7 @@ prop("C20",
 
 prop("C05",
      level_text="generated-input search (rapid): input type x JSON-like value (conformant, or with exactly one of the named non-conformances injected at a drawn depth) x placement (variable, inline literal, variable nested inside a literal, variable default, argument default; bare values for list types); oracle = independent input-coercion model + resolver-invocation counter + literal/variable metamorphic relation + literal-validity/variable-coercibility agreement",
-     note="values on which the port is knowingly lenient and the property is silent (numeric strings / booleans for Int and Float, fractional floats for Int, non-strings for String/Boolean) are never generated (DESIGN §3.3)",
+     note="values on which the port is knowingly lenient and the property is silent (numeric strings / booleans for Int and Float, fractional floats for Int, non-strings for String/Boolean) are never generated (DESIGN §3.3); ADDED IN THE SENSITIVITY PHASE (DESIGN 13): integer text outside 32 bits is generated as a non-coercible Int value (out of range as a number, not a number otherwise); the same probe exists on a subscription root and the arguments handed to its Subscribe function are compared too",
      technique="property-based testing (rapid): reference model of input coercion + metamorphic relation",
      rule="schema from the C01 generator plus a probe field probe(x: T [= default]): String whose resolver records Args; T drawn over scalars, custom scalars, enums (int / string / name internals), nested input objects, wrappers to depth 3. Non-trivial = value nesting depth >= 2 or an argument default participates; distinct by hash of (schema, type, value).",
      assumptions=EXEC_ASSUME,
@@ -71,7 +71,7 @@ prop("C05",
 
 prop("C13",
      level_text="generated-input search (rapid): mutation documents x resolver outcomes with deferred results (thunks) and errors at every level; every case is executed 30 times (Do, Execute, ExecutePlan in turn) and the event log of resolver starts and thunk forcings must be a concatenation of per-top-level-field blocks in CollectFields order",
-     note="events are recorded by the instrumented schema's hook; order of top-level keys comes from the reference CollectFields; repeats sample Go's per-range map iteration order",
+     note="events are recorded by the instrumented schema's hook; order of top-level keys comes from the reference CollectFields; repeats sample Go's per-range map iteration order; ADDED IN THE SENSITIVITY PHASE (DESIGN 13): runs also go through a normalising and an exact-key plan cache that first served the mutation with its top-level selections reversed",
      technique="property-based testing (rapid) with an invariant over the recorded event history",
      rule="mutation documents from the C01 generator (2-6 top-level fields through aliases, duplicates, fragments, inline fragments, nested selections); outcomes at ~40% of reachable positions from {nil, error, value+error, panic, thunk, failing thunk, nil thunk} (failures only in nullable positions). Non-trivial = >= 2 top-level fields and at least one thunk forced; distinct by hash of the case.",
      assumptions=EXEC_ASSUME,
@@ -97,7 +97,7 @@ prop("C03",
 
 prop("C08",
      level_text="round-trip testing: for generated and corpus documents the parser accepts, parse(print(A)) must be structurally identical to A (kinds, names, decoded values, order; locations aside), print must be stable after one round, and Print must leave its argument untouched; thorough adds a native fuzz campaign over arbitrary accepted byte strings",
-     note="quantifies over documents that are both accepted by the library and derivable from the grammar (inputs accepted only because of KF-C03-typeref are C03's business); layouts are ASCII so KF-C03-offsets cannot interfere; invalid UTF-8 is not generated",
+     note="quantifies over documents that are both accepted by the library and derivable from the grammar (inputs accepted only because of KF-C03-typeref are C03's business); layouts are ASCII so KF-C03-offsets cannot interfere; invalid UTF-8 is not generated; ADDED IN THE SENSITIVITY PHASE (DESIGN 13): string contents are composed from code-point classes (controls, C1, separators, BMP edges, non-BMP printable and not, combining marks), numbers from their grammatical parts, block strings from lines with drawn indentation and LF / CRLF / CR",
      technique="property-based testing (rapid) + go test -fuzz with a round-trip oracle",
      rule="sentences derived from the grammar (executable, type-system, mixed): every definition kind, every value kind nested, strings over a hostile alphabet (quotes, backslash, C0 controls, DEL, U+2028, BOM, non-BMP), descriptions as quoted and block strings with triple quotes / trailing quotes / indentation / CR / blank lines, directives with arguments on every definition kind, empty field lists. Non-trivial = parseable and contains a character outside plain printable ASCII, an escape, a block string, or a described / directive-carrying type-system definition; distinct by text.",
      assumptions=SYN_ASSUME,
@@ -108,7 +108,7 @@ prop("C08",
 
 prop("C09",
      level_text="robustness search over every public entry point (parser.Parse, printer.Print, ValidateDocument with each rule alone and all, PlanQuery+ExecutePlan / Execute / ExecuteSubscription on UNVALIDATED ASTs, Do, Subscribe, PlanCache.Get with and without normalisation): no panic, returns within a watchdog proportional to input size, result JSON-serialisable, no data after a parse/validation failure, an error whenever data is absent, subscription channels deliver and close",
-     note="fixed 'kitchen' schema (every type kind, cyclic types, mutation and subscription roots); watchdog = 11 x (5 s + 1 ms/byte), a hit is 'inconclusive' unless it persists; native fuzzing only in the thorough tier (its saved crasher is the reproducible unit)",
+     note="fixed 'kitchen' schema (every type kind, cyclic types, mutation and subscription roots); watchdog = 11 x (5 s + 1 ms/byte), a hit is 'inconclusive' unless it persists; native fuzzing only in the thorough tier (its saved crasher is the reproducible unit); ADDED IN THE SENSITIVITY PHASE (DESIGN 13): also: scaled valid documents (C19 recipes over the kitchen schema, n = 48..80, half with mutually exclusive parents) against the watchdog, a quarter of all fields and list elements of the kitchen world are deferred values, TestC09_Valuations (128 valuations on one plan under a 30 s watchdog); a call that does not return ends the process at once with the failure recorded",
      technique="fuzzing: rapid-generated structured inputs + corpus replay, go test -fuzz in thorough; crash / hang / result-shape oracle",
      rule="inputs: grammatical sentences over the schema's vocabulary (optionally one token mutation, hostile layouts), token soup, a catalogue of ~110 validation-breaking documents (cyclic fragments of length 1-3 incl. through fields, unknown types/fields/fragments, type-system definitions mixed in, missing/duplicate operations, malformed type references, 60-200 deep nesting, 3000 siblings, 2000-element and 60-deep literals), random bytes; operation names and variable maps (incl. wrong kinds, 1e400, non-object JSON) from pools. Non-trivial = parsed successfully or failed after more than a few tokens; distinct by (text, operation name, variables).",
      assumptions=["resolvers are the harness's (World with salt 7, 1/6 nulls); subscription source = 2 events then close"],
@@ -120,7 +120,7 @@ prop("C09",
 
 prop("C14",
      level_text="generated-input search (rapid): parsed ASTs (executable, type-system, mixed) x visitor policies ({continue, skip, break} on up to three drawn (node, phase) pairs) x five visitor forms x 1-4 parallel visitors x optional type tracking; oracle = a plain recursive reference walk producing the expected event list (node, key, parent, ancestors, path) and an independent type tracker",
-     note="children per kind are those of visitor.QueryDocumentKeys as frozen in the harness's syn.Node shape; Path is compared on enter only (DESIGN §3.5); a leading nil in Ancestors is tolerated; type tracking is compared on executable documents over the fixed kitchen schema, except where the reference says 'unspecified' (arguments of unknown directives, introspection subtrees, fragments on input types, variables of output types)",
+     note="children per kind are those of visitor.QueryDocumentKeys as frozen in the harness's syn.Node shape; Path is compared on enter only (DESIGN §3.5); a leading nil in Ancestors is tolerated; type tracking is compared on executable documents over the fixed kitchen schema, except where the reference says 'unspecified' (arguments of unknown directives, introspection subtrees, fragments on input types, variables of output types); ADDED IN THE SENSITIVITY PHASE (DESIGN 13): visitor forms 5 and 6 have callbacks for a drawn subset of kinds only (silent nodes in between); half of the type-tracking cases use type-directed documents over the kitchen schema (bare values for list positions, variables, one injected violation)",
      technique="property-based testing (rapid) against a reference traversal",
      rule="documents from the grammar sentence generator (vocabulary of the kitchen schema when type tracking is on); policies aim at existing pre-order indices; forms: KindFuncMap{Kind,Leave}, KindFuncMap{Enter,Leave}, generic Enter/Leave (with EnterKindMap traps), Enter/LeaveKindMap, mixture. Also: no-edit traversal leaves the tree identical, second traversal gives the same number of events. Non-trivial = a skip/break in some policy, or >= 2 parallel visitors, or a type-system document; distinct by hash of the case.",
      assumptions=SYN_ASSUME,
@@ -128,7 +128,7 @@ prop("C14",
 
 prop("C18",
      level_text="generated-input search (rapid): (a) syntactically corrupted documents under CR/LF/CRLF layouts: the (line, column) of the syntax error, converted by the harness's own line splitter, must fall inside the first token / malformed lexeme at which the reference parser says the text stops being a valid prefix; (b) validation errors of injected violations must be located at the start of a node the violated rule may blame; (c) field errors: path = response keys and indices of a field the reference says fails, data at the path or a prefix is null, every location is the start of an occurrence of that field",
-     note="columns are accepted counted in bytes or in characters; inputs on which KF-C03-offsets can act (multi-byte characters before the error position) and errors inside malformed type references (KF-C03-typeref) are excluded and counted",
+     note="columns are accepted counted in bytes or in characters; inputs on which KF-C03-offsets can act (multi-byte characters before the error position) and errors inside malformed type references (KF-C03-typeref) are excluded and counted; ADDED IN THE SENSITIVITY PHASE (DESIGN 13): the field sub-check also serves through an exact-key and a normalising plan cache that first served whitespace variants of the text (locations under normalisation: KF-C18-normalized-locations); serializer / foreign-error outcomes as in C04",
      technique="property-based testing (rapid): positions recomputed independently (reference parser spans, printer offset table, reference interpreter paths)",
      rule="(a) grammar sentences with one token mutation and optionally one byte mutation (truncation, quote, backslash, NUL, dot, bad number characters, line terminators); (b) valid documents with one injected violation per rule, hostile ASCII layouts; (c) C04-style adversarial executions printed under drawn layouts. Non-trivial = an error on a text containing a line terminator, or a path with a list index; distinct by text / case hash.",
      assumptions=SYN_ASSUME + EXEC_ASSUME,
@@ -138,7 +138,7 @@ prop("C18",
 
 prop("C12",
      level_text="repeat-and-compare search: each request (a catalogue aimed at every place where output is built from a Go map, plus rapid-generated valid / failing / invalid requests) is executed 13 times in one process, interleaved with other requests and also served through a plan cache, and the JSON bytes and ValidateDocument error lists must be identical; the same generated requests are then run in several fresh processes (fresh map seeds) and their response digests must agree",
-     note="Go randomises map iteration per range statement and per process; repetition samples those seeds, it does not enumerate them (DESIGN §7)",
+     note="Go randomises map iteration per range statement and per process; repetition samples those seeds, it does not enumerate them (DESIGN §7); ADDED IN THE SENSITIVITY PHASE (DESIGN 13): between repetitions: the same text with other variable values (each compared with its own first answer, also through the same cache entry), 1-2 generated neighbour documents over the same schema, an introspection request; worlds where every isTypeOf answers yes (the order in which possible types are asked shows); the fixed schema is built afresh per case",
      technique="property-based testing (rapid) + multi-process differential (self-comparison oracle)",
      rule="catalogue: unknown field / argument / type / enum value with several equidistant suggestions, input-object literals and variables with several invalid fields, several failing thunks in objects and lists, introspection of types / fields / args / inputFields / enumValues / possibleTypes / directives, multi-rule invalid documents; generated: C04-style executions. Non-trivial = the response carries >= 2 error messages, a suggestion list, or an introspection list; distinct by hash of the case.",
      assumptions=["replica processes are given the same rapid seed and therefore the same requests; only map seeds differ"],
@@ -146,9 +146,9 @@ prop("C12",
 
 prop("C02",
      level_text="differential testing of ValidateDocument against 24 independent rule predicates written from the spec text over the harness's document model: every rule is run alone and all together on valid-by-construction documents, on documents with one or two injected violations from a 78-operator catalogue, and on an exhaustively enumerated family of fragment topologies; oracle = per-rule 'reports iff violated', at least one reported location at the start of a node the rule may blame, IsValid iff no rule violated, Do answers without data iff invalid",
-     note="edition = October 2016 / graphql-js 0.8 (DESIGN §3.2); verdicts the edition leaves open (PossibleFragmentSpreads on non-composite conditions, shape of __typename, same-named definitions with different bodies) are not compared and counted under excluded; generated schemas mention all five built-in scalars",
+     note="edition = October 2016 / graphql-js 0.8 (DESIGN §3.2); verdicts the edition leaves open (PossibleFragmentSpreads on non-composite conditions, shape of __typename, same-named definitions with different bodies) are not compared and counted under excluded; generated schemas mention all five built-in scalars; ADDED IN THE SENSITIVITY PHASE (DESIGN 13): documents carry up to six injected violations (interactions between rules); verdicts that depend on reading order are not compared: duplicate argument names on one field (overlap rule), __typename against another field under one key, locations when two definitions share a name",
      technique="property-based testing (rapid) + bounded exhaustive enumeration, differential oracle (reference rule predicates)",
-     rule="generated: schema x valid document (C01 generator, with custom directives) x 0-2 injections (unknown field/arg/type/directive/fragment, misplaced directives, wrong literal kinds at depth, missing required args/fields, undefined/unused/duplicate variables, stricter positions, non-input variable types, cycles of length 1-3, unused/duplicate fragments, impossible spreads, leaf/selection mismatches, duplicate args/input fields/operation names, anonymous+named, overlapping fields differing in name/args/shape directly and through fragment chains on one or both sides, plus 'legal divergence' operators). Enumerated: query + k fragments on one type, each body = one of 6 selections (x:a, x:b, x:c, q{x:a}, q{x:b}, y:a) followed by any subset of spreads: k=2 complete (13 824 documents; a seed-chosen quarter in quick), k=3 over 4 selections complete in thorough (1 048 576). Non-trivial = some rule is violated, or >= 2 fragments with a duplicated response key; distinct by case hash / text.",
+     rule="generated: schema x valid document (C01 generator, with custom directives) x 0-6 injections (unknown field/arg/type/directive/fragment, misplaced directives, wrong literal kinds at depth, missing required args/fields, undefined/unused/duplicate variables, stricter positions, non-input variable types, cycles of length 1-3, unused/duplicate fragments, impossible spreads, leaf/selection mismatches, duplicate args/input fields/operation names, anonymous+named, overlapping fields differing in name/args/shape directly and through fragment chains on one or both sides, plus 'legal divergence' operators). Enumerated: query + k fragments on one type, each body = one of 6 selections (x:a, x:b, x:c, q{x:a}, q{x:b}, y:a) followed by any subset of spreads: k=2 complete (13 824 documents; a seed-chosen quarter in quick), k=3 over 4 selections complete in thorough (1 048 576). Non-trivial = some rule is violated, or >= 2 fragments with a duplicated response key; distinct by case hash / text.",
      assumptions=["reference predicates: harness/ref/validate.go (does not import the library)"],
      runs=[dict(test="^TestC02_Gen$", quick=dict(checks=1200), thorough=dict(checks=12000, shards=16, timeout=3000)),
            dict(test="^TestC02_Enum$", quick=dict(env=dict(VERIF_C02_FRAGS=2, VERIF_C02_ALPHA=6, VERIF_C02_PARTS=4)),
@@ -158,7 +158,7 @@ prop("C02",
 
 prop("C17",
      level_text="generated-input search (rapid): 0-3 instrumented extensions, each hook (Init, the four start hooks, the four finish functions, HasResult, GetResult) with a drawn policy {ok, panic(error), panic(string), panic(int), panic(struct)}, over requests of every outcome class (syntax error, validation error, variable error, field errors incl. a panicking resolver, success); oracle = invariants over the recorded event log",
-     note="per extension: pipeline order, one Init, every start hook that returned is matched by exactly one finish, resolve notifications properly nested and closed before execution finishes, phase outcomes (parse error iff syntax error, validation errors iff invalid) when no hook panicked; globally: no panic escapes Do and every panicking hook is reflected by an error naming its extension. The order in which different extensions' finish functions run is not asserted.",
+     note="per extension: pipeline order, one Init, every start hook that returned is matched by exactly one finish, resolve notifications properly nested and closed before execution finishes, phase outcomes (parse error iff syntax error, validation errors iff invalid) when no hook panicked; globally: no panic escapes Do and every panicking hook is reflected by an error naming its extension. The order in which different extensions' finish functions run is not asserted.; ADDED IN THE SENSITIVITY PHASE (DESIGN 13): hook policies may name one response path: the resolve hooks then panic for that field only",
      technique="property-based testing (rapid): fault injection into hooks, invariant over the event history",
      rule="requests from a fixed catalogue per outcome class on the kitchen schema; Non-trivial = (>= 2 extensions and >= 1 panic) or a non-error panic value; distinct by case hash.",
      assumptions=["extension names are unique (the interface asks for that); hooks never return a nil finish function"],
@@ -166,7 +166,7 @@ prop("C17",
 
 prop("C10",
      level_text="generated-input search (rapid): schema model (wrappers to depth 4, defaults of every input kind incl. enums with non-name internals, lists, nested input objects, custom scalars; descriptions; deprecations; custom directives; thunked interfaces / members; unreferenced implementers and an unreferenced union of them) built directly or by NewSchema + AppendType in a drawn order, where members of an appended union are appended before it, after it, or arrive only through it; the full introspection result is decoded and compared with the generating model, every defaultValue is parsed by the reference parser and coerced by the reference coercion and must give back the configured default; __type(name:) per type with includeDeprecated off",
-     note="configured defaults are generated in coerced form (input-object defaults carry their fields' own defaults, no null inside lists: this edition has no null literal); __typename = runtime type is covered by C01/C04",
+     note="configured defaults are generated in coerced form (input-object defaults carry their fields' own defaults, no null inside lists: this edition has no null literal); __typename = runtime type is covered by C01/C04; ADDED IN THE SENSITIVITY PHASE (DESIGN 13): a quarter of the cases supply no Types (the expected schema is what the roots reach); string defaults and descriptions are composed from code-point classes; an unreferenced union of unreferenced implementers is appended with members before / after / only through it",
      technique="property-based testing (rapid): model round trip through introspection + parse/coerce round trip of defaults",
      rule="Non-trivial = a default of list / input-object / enum kind, an interface with >= 2 implementers, or a schema extended by AppendType; distinct by case hash.",
      assumptions=["the set of types a schema must list = model types + built-in scalars it mentions + String, Boolean + the eight introspection types"],
@@ -174,14 +174,14 @@ prop("C10",
 
 prop("C11",
      level_text="generated-input search (rapid): valid schema configurations built through the library's constructors with 0-2 injected malformations out of 45 operators (duplicate / invalid / reserved names on every kind of named thing, empty field / value / member sets, nil in every pointer-typed slot incl. typed-nil roots, interface fields missing / of wrong or contravariant type / with missing, differing or extra required arguments, NonNull(NonNull), List(nil), output types in input positions and vice versa, missing query root, repeated union members, abstract types nobody can resolve, malformed directives) and AppendType histories; oracle = no panic from any constructor / NewSchema / AppendType, and err == nil implies an independent consistency checker over the public accessors, and appended == up-front",
-     note="the statement is one-directional: rejecting a valid configuration is not an alarm (valid configurations are always exercised: every fifth case is unmutated and must be accepted); names with the reserved __ prefix are not counted as illegal (the ported edition only warns)",
+     note="the statement is one-directional: rejecting a valid configuration is not an alarm (valid configurations are always exercised: every fifth case is unmutated and must be accepted); names with the reserved __ prefix are not counted as illegal (the ported edition only warns); ADDED IN THE SENSITIVITY PHASE (DESIGN 13): a quarter of the cases supply no Types; illegal names are drawn from a pool incl. non-ASCII letters, digits and marks; operators added: duplicateInterface; malformed types arriving through AppendType must give an error or a consistent schema",
      technique="property-based testing (rapid): fault injection into configurations, validity predicate over the result",
      rule="consistency = unique legal names, type map closed under field / argument / input-field / interface / member / root references and containing the 8 introspection types, output vs input positions, declared interfaces really implemented (own covariance relation, identical argument types, no extra required arguments), PossibleTypes = declared implementers / members each once, IsPossibleType agrees. Non-trivial = a mutated configuration or an append history; distinct by case hash.",
      runs=[dict(test="^TestC11$", quick=dict(checks=20000), thorough=dict(checks=200000, shards=16, timeout=3000))])
 
 prop("C06",
      level_text="model-based search over cache histories (rapid): sequences of Get+ExecutePlan / Reset / plan-once-execute-many over a working set drawn from a pool of near-identical requests (pairs differing in one literal, literal kind, directive, variable default, alias, argument order, repeated field, separator-like string contents, operation name, fragment body; invalid, over-size and syntactically wrong requests), two schema values of equal shape, MaxEntries in {1,2,3,1024}, MaxQueryBytes default or small, Normalize on/off, nil cache; plus rapid-generated documents with a literal-perturbed neighbour served alternately. Oracle = every served response equals graphql.Do of the same request from scratch (data JSON, error presence, error paths); with exact keys the hit/miss counters must match a reference LRU bounded by MaxEntries and bound to the schema pointer; over-size and nil-cache requests never touch the counters; a planned document is left unmodified",
-     note="resolvers echo their arguments, so a wrong literal, default or shared entry shows in data; under Normalize the counters are only required to move by exactly one per cacheable lookup. 'The original document is not modified' is observable only for PlanQuery+ExecutePlan on a caller-held AST (PlanCache.Get takes text)",
+     note="resolvers echo their arguments, so a wrong literal, default or shared entry shows in data; under Normalize the counters are only required to move by exactly one per cacheable lookup. 'The original document is not modified' is observable only for PlanQuery+ExecutePlan on a caller-held AST (PlanCache.Get takes text); ADDED IN THE SENSITIVITY PHASE (DESIGN 13): also compared: error messages, and error locations except under normalisation while KF-C06-normalized-locations is active; resolvers may write into their argument maps; pool entries for operation names that select nothing, equal literals in other patterns, swapped variables, literals that mimic each other's structure; TestC06_Valuations serves one plan / cache entry with all 128 valuations of seven directive variables",
      technique="property-based testing (rapid): stateful / model-based history generation with a from-scratch differential oracle",
      rule="Non-trivial = a history that looks a key up again after it was stored (potential hit, collision or eviction), a reused plan executed more than once, or a generated document whose neighbour differs in >= 1 literal; distinct by case hash.",
      assumptions=EXEC_ASSUME,
@@ -191,21 +191,21 @@ prop("C06",
 
 prop("C19",
      level_text="scaling search over document families (nesting depth through an abstract field x number of implementers, fragment chains, one fragment spread at n sites, dense fragment DAGs, fragments spreading each other twice per level through fields, n repetitions of a response key with sub-selections, input literals n deep / n wide, n mutually exclusive inline fragments, n aliases): work is read from step counters at the field-collection and field-pair-comparison sites (verif build tag) after ValidateDocument, PlanQuery and ExecutePlan; composed recipe families (1-3 root contexts under no / different concrete type conditions, directly or under one response key, x which later fragments each fragment spreads: next, next two, all later, next and n/2 ahead, every third x how: directly, through a field, through an aliased field, alternating) measured at n = 8, 12, 18, 27 (40) with consecutive-size ratio <= 12 (degree 5 gives 7.6); oracle for the fixed families = doubling ratio <= 12 on the ladder 4..64 (128 in thorough), a cubic envelope fixed at the smallest size, plan-time work identical for 2 / 8 / 32 / 128 implementers, and at most one planned runtime type per abstract value encountered at execution",
-     note="no wall-clock oracle; the counters are the only source hook (commit listed under hooks.source_commits); exponential blow-ups pass ratio 12 by n=16 in every family probed",
+     note="no wall-clock oracle; the counters are the only source hook (commit listed under hooks.source_commits); exponential blow-ups pass ratio 12 by n=16 in every family probed; ADDED IN THE SENSITIVITY PHASE (DESIGN 13): families added: sparse, uniondepth (also in the implementers comparison), composed recipes; every measurement executes the plan twice (the second must plan nothing); literal coercion / validation are counted (second hook commit); a measurement is abandoned at 30M steps or 120 s and the process ends with the failure recorded",
      technique="property-based testing (rapid-drawn sizes) + fixed scaling ladders, metamorphic / growth-rate oracle on instrumented step counts",
      rule="ladder: every family x sizes 4,8,16,32,64 (dense DAG families to 32); implementers: depth family at n in {4,16,48} x m in {2,8,32,128}; rapid: family x n in [5,64] x m in {2,4,16,64} against the cubic envelope. Every case with n >= 8 is non-trivial; distinct by (family, n, m).",
      runs=[dict(test="^TestC19_", quick=dict(checks=300), thorough=dict(checks=3000, shards=4, timeout=3000))])
 
 prop("C07",
      level_text="concurrency stress under the race detector (rapid-seeded): per case a fresh (cold) schema, one shared prepared plan and one shared plan cache; 2-16 goroutines released by a start barrier each run a drawn script of Do / ValidateDocument / PlanCache.Get+ExecutePlan / ExecutePlan(shared plan) / Reset over queries touching enums (in and out), unions, interfaces and nested abstract fields resolving to different runtime types; oracle = no race report (GORACE=halt_on_error=1, the driver reads the report), no panic, all goroutines finish, and every response equals the response of the same request run alone on a private instance",
-     note="the Go scheduler is not owned: the race detector needs both accesses to occur unordered in the observed run, which first-use initialisation does in practically every case; races that need a rare interleaving of warm state are out of reach (DESIGN §7). A halted process leaves the running case as the replay file; replay repeats the history 20 times.",
+     note="the Go scheduler is not owned: the race detector needs both accesses to occur unordered in the observed run, which first-use initialisation does in practically every case; races that need a rare interleaving of warm state are out of reach (DESIGN §7). A halted process leaves the running case as the replay file; replay repeats the history 20 times.; ADDED IN THE SENSITIVITY PHASE (DESIGN 13): the shared plan and one pool query carry variable-driven directives and every operation draws a valuation; literal-neighbour queries share a normalised cache entry",
      technique="property-based stress testing (rapid-drawn histories) with the Go race detector and a sequential-baseline differential oracle",
      rule="Non-trivial = at least two requests were in flight at the same time (measured with atomic start/finish stamps); distinct by case hash.",
      runs=[dict(test="^TestC07$", race=True, quick=dict(checks=150), thorough=dict(checks=1500, shards=8, timeout=3000))])
 
 prop("C16",
      level_text="schedule search with harness-owned gates (rapid): documents with 1-6 gated resolver invocations (nested, in lists), gates also inside ParseValue of a custom scalar during variable coercion (variables of type Gate, [Gate], input object with a Gate field; cancellation while the k-th coercion call is blocked); a context the harness ends itself (cancel or deadline as a logical event; also stock context.WithCancel / an already expired WithDeadline), cancellation point drawn from {before the call, while resolver k is blocked for every k, after the last resolver, never, racing the last gate}, resolvers that ignore or observe the context, entries Do and PlanQuery+ExecutePlan; oracle = while a resolver is still blocked the call returns with no data and exactly the context's error; without cancellation the complete response; in racing schedules one of the two and nothing else; afterwards no library goroutine survives",
-     note="'promptly' = returns while the gate of the blocked resolver is still closed (watchdog 20 s >> microseconds); interleavings inside the library between its two goroutines are sampled, not enumerated; built with -race",
+     note="'promptly' = returns while the gate of the blocked resolver is still closed (watchdog 20 s >> microseconds); interleavings inside the library between its two goroutines are sampled, not enumerated; built with -race; ADDED IN THE SENSITIVITY PHASE (DESIGN 13): also: mutation documents, stock contexts that carry a cause, gated resolvers that fail with their own sub-context's deadline error, and TestC16_Coercion (gates inside ParseValue)",
      technique="property-based testing (rapid) over harness-controlled schedules (logical gates instead of sleeps)",
      rule="Non-trivial = cancellation at an interior resolver (0 < k < n) or racing completion; distinct by case hash.",
      runs=[dict(test="^TestC16$", race=True, quick=dict(checks=400), thorough=dict(checks=4000, shards=16, timeout=3000)),
@@ -213,7 +213,7 @@ prop("C16",
 
 prop("C15",
      level_text="history search (rapid) with the harness as producer and consumer: the subscription source is an unbuffered channel, so emit / read / cancel / closeSource happen exactly in the drawn order; payloads make field resolution succeed, fail, or fail in a non-null position, or are nil; sources that are a stream, a single value, nil, an error, a panic with an error or with a string; requests that fail to parse or validate; consumers that keep or stop reading after cancellation. Oracle = the i-th result equals the harness's own execution of the selection for the i-th event (data JSON and error count), one per event and in order; the channel closes after the source closes or the context is cancelled; failing requests deliver exactly one error result and close; afterwards no goroutine with an ExecuteSubscription frame survives",
-     note="an emit is only attempted when the library is idle (otherwise the producer itself would block), so stalls are modelled as 'result pending, consumer not reading'; after cancellation a result may be the correct next one or carry only the context error; multi-root subscriptions are not generated (the edition has no single-root rule and the port picks a root by map order); built with -race",
+     note="an emit is only attempted when the library is idle (otherwise the producer itself would block), so stalls are modelled as 'result pending, consumer not reading'; after cancellation a result may be the correct next one or carry only the context error; multi-root subscriptions are not generated (the edition has no single-root rule and the port picks a root by map order); built with -race; ADDED IN THE SENSITIVITY PHASE (DESIGN 13): payloads also: nil events, gated (the resolver blocks until released; action release); a non-null root field, variables with non-idempotent coercion, a root field reached through the second of two spreads; the census counts every goroutine in library code",
      technique="property-based testing (rapid): model-based history generation with harness-owned hand-offs and a goroutine census",
      rule="Non-trivial = an event whose execution fails, or a cancellation while a result is pending; distinct by case hash.",
      runs=[dict(test="^TestC15$", race=True, quick=dict(checks=1200), thorough=dict(checks=12000, shards=16, timeout=3000))])
